@@ -29,7 +29,7 @@ ASSUMPTIONS = [
     "a partial frame cut by an injected write error is attributed by the reference encoder (ref/encode.py)",
     "the +/-1 step and control-method flip have no public entry point; they are exercised at socket level with the non-idempotent policy and through the API's private command helper when it exists",
 ]
-PROBES = ["c02.expiry_during_stalled_flush", "c02.chained_sends", "c02.close_window_class", "c02.write_into_closing_transport", "c02.fault_hit_pending", "c02.retry_seen", "c02.expired_after_fault", "c02.reconnect_at_exact_expiry", "c02.single_fault_class",
+PROBES = ["c02.first_connection_dead_on_arrival", "c02.expiry_during_stalled_flush", "c02.chained_sends", "c02.close_window_class", "c02.write_into_closing_transport", "c02.fault_hit_pending", "c02.retry_seen", "c02.expired_after_fault", "c02.reconnect_at_exact_expiry", "c02.single_fault_class",
           "c02.api_class", "c02.toggle_under_fault", "c02.helper_step", "c02.budget_exhausted"]
 EXHAUSTIVE = False
 
@@ -107,9 +107,48 @@ def exec_slow_flush(sc: dict) -> dict:
     return common.result(w, V, nontrivial=True, probes=probes, evals=max(1, len(h.subs)))
 
 
+def gen_init_doa(rng) -> dict:
+    """API class, start-up: the very first connection is reset by the console as soon as it is accepted (the handshake's
+    first request meets a dead transport); the next usable connection comes up one second or more later. Handshake requests
+    have the 'connected' policy: one attempt, discarded unless a connection exists within one second."""
+    gen = rng.choice([4, 5])
+    from ref import console as refconsole
+
+    inst = refconsole.default_installation(gen)
+    p0 = rng.choice([0, 7, 250])
+    later = rng.choice([[{"kind": "refuse", "latency": 0.0}, {"kind": "accept", "latency": 0.0}],
+                        [{"kind": "accept", "latency": rng.choice([1.0, 1.5, 3.0])}],
+                        [{"kind": "refuse", "latency": 0.5}, {"kind": "refuse", "latency": 0.0}, {"kind": "accept", "latency": 0.125}]])
+    knobs = {"latency": rng.choice([0.0, G.TICK]), "first_packet_id": p0, "seg": {"mode": "whole"}, "fates": [{"kind": "accept", "latency": 0.0}] + later}
+    tl = [{"at": 0.0, "op": "net.rst_next_accept", "delay": rng.choice([0.0, 0.0, G.EPS])}, {"at": G.EPS, "op": "user.init"}]
+    return {"gen": gen, "mode": "api", "installation": inst, "knobs": knobs, "timeline": tl, "end": 14.0, "class": "init_doa", "p0": p0}
+
+
+def exec_init_doa(sc: dict) -> dict:
+    w = World(sc).run()
+    V = []
+    probes = {}
+    links = [l for l in w.net.links if l.t_accept is not None]
+    tried = any(e[2] in ("tx.write", "tx.dropped") and e[3].get("link") == (links[0].id if links else -1) for e in w.trace.events)
+    if len(links) < 2 or not tried:
+        return common.result(w, V, nontrivial=False, probes=probes)
+    probes["c02.first_connection_dead_on_arrival"] = 1
+    t1 = links[0].t_accept
+    for f in common.client_frames(w):
+        if f["link"] == links[0].id or not f["reading"]["kind"].endswith("_request"):
+            continue
+        if f["fr"]["pid"] == sc["p0"] % 256 and f["t"] >= t1 + 1.0:
+            V.append(viol("C02.stale_request_sent", {"kind": f["reading"]["kind"], "packet_id": f["fr"]["pid"], "first_handed_to_a_transport_at": t1, "on_the_wire_at": f["t"],
+                                                     "why": "the client's first request (one attempt, one second) re-appears on a later connection"}))
+            break
+    return common.result(w, V, nontrivial=True, probes=probes)
+
+
 def generate(rng, index: int, tier: str) -> dict:
     if rng.random() < 0.25:
         return gen_api(rng)
+    if rng.random() < 0.04:
+        return gen_init_doa(rng)
     if rng.random() < 0.06:
         return gen_slow_flush(rng)
     if rng.random() < 0.12:
@@ -270,6 +309,8 @@ def execute(sc: dict) -> dict:
         return execute_api(sc)
     if sc.get("class") == "slow_flush":
         return exec_slow_flush(sc)
+    if sc.get("class") == "init_doa":
+        return exec_init_doa(sc)
     w = World(sc).run()
     V = []
     probes = {}
